@@ -2,7 +2,7 @@
 
 Part A  (E1) containment: every shape kind x position x radius x rotation; the
         library's `is_point_inside_shape` against the crossing-number test on the
-        shape's OWN `vertices` (disc for Circle) on a 41x41 lattice over the
+        shape's OWN `vertices` (disc for Circle) on a 29x29 (thorough 41x41) lattice over the
         bounding disc (irrational offset; points within 1e-9 r of an edge are
         ties, excluded and counted) plus boundary-seeking probes 1e-6 r either
         side of every edge.  The own vertices are also compared with an
@@ -41,7 +41,7 @@ ENGINE = ("E1 product enumeration (containment, border points, clusters, distanc
           "point processes) + E2 deviation-bounded exploration of scripted numpy.random answers "
           "(random user placement)")
 RULE = ("A/B: every shape kind {Hexagon, Rectangle 1:1 and 4:1, Circle, Cell, Cell3Sec, CellSquare, "
-        "CellWrap of each cell} x pos x radius x rotation; A: every point of a 41x41 lattice over the "
+        "CellWrap of each cell} x pos x radius x rotation; A: every point of a 29x29 (thorough: 41x41) lattice over the "
         "bounding disc + probes 1e-6 r either side of every edge, oracle = crossing number on the "
         "shape's own vertices (disc for Circle); B: every angle x ratio, oracle = distance to the own "
         "polygon boundary, direction, linearity in the ratio. C: every vector of scripted "
@@ -125,9 +125,10 @@ def inside1(poly, p):
     return inside
 
 
-def bdist1(poly, p):
-    """scalar distance to the nearest edge segment"""
+def bdist1(poly, p, with_edge=False):
+    """scalar distance to the nearest edge segment (optionally with the index of that edge)"""
     best = math.inf
+    which = 0
     n = len(poly)
     for i in range(n):
         a, b = poly[i], poly[(i + 1) % n]
@@ -142,7 +143,8 @@ def bdist1(poly, p):
             d = abs(ap - t * ab)
         if d < best:
             best = d
-    return best
+            which = i
+    return (best, which) if with_edge else best
 
 
 def polygon_area(poly):
@@ -383,7 +385,7 @@ def run_border(chk, kind, pos, r, rot, angles=None, ratios=None):
     with chk.guard(("border_point", family(kind)), case):
         obj = build_shape(kind, pos, r, rot)
         centre = shape_centre(kind, pos, r)
-        v = np.array(obj.vertices, dtype=complex)
+        vl = [complex(z) for z in np.array(obj.vertices, dtype=complex)]
         fam = family(kind)
         edges = set()
         for ang in (angles if angles is not None else border_angles()):
@@ -402,8 +404,7 @@ def run_border(chk, kind, pos, r, rot, angles=None, ratios=None):
                     if fam == "Circle":
                         d, e = abs(abs(bp - centre) - r), 0
                     else:
-                        dd, ee = boundary_distance(v, bp)
-                        d, e = float(dd[0]), int(ee[0])
+                        d, e = bdist1(vl, bp, True)
                     edges.add(e)
                     if d > TOL * r:
                         chk.fail(border_sig(kind, "not_on_boundary"), c2, observed=bp,
@@ -467,25 +468,27 @@ RANDOM_KINDS = [("Cell", 0), ("CellSquare", 0), ("Cell3Sec", 0), ("Cell3Sec", 1)
 HORIZON = 2 * NDIR * 2 + 32
 
 
-E2_ROT_DEEP = [0, 45, 17, 123.4, -90, 720]
-
-
 def random_jobs(tier):
-    """(cfg, num_users, deviation bound) -- see main() for the stated bounds"""
+    """[(cfg, num_users, deviation bound, split_depth)] -- the stated E2 bounds, see the evidence"""
     diag = [(POS[0], RADII[0]), (POS[1], RADII[1]), (POS[2], RADII[2])]
     full = [(p, r) for p in POS for r in RADII]
-    out = []
     if tier == "thorough":
-        plan = [(full, ROT, MIN_DIST, 1, 4), (full, ROT, MIN_DIST, 2, 2),
-                (diag, E2_ROT_DEEP[:4], [0.0, 0.7], 1, 6)]
+        plan = [(RANDOM_KINDS, full, ROT, MIN_DIST, 2, 2),
+                (RANDOM_KINDS, full, ROT, MIN_DIST, 1, 3),
+                (RANDOM_KINDS, diag, [0, 45, 17, 123.4], MIN_DIST, 1, 4),
+                (RANDOM_KINDS, diag[1:2], [45], [0.3], 1, 5),
+                (RANDOM_KINDS[1:2], diag[1:2], [45], [0.3], 1, 6)]
     else:
-        plan = [(diag, E2_ROT_DEEP, MIN_DIST, 1, 4), (diag, ROT, MIN_DIST, 2, 2)]
-    for pairs, rots, mds, nusers, bound in plan:
-        for kind, sector in RANDOM_KINDS:
+        plan = [(RANDOM_KINDS, diag, ROT, MIN_DIST, 2, 2),
+                (RANDOM_KINDS, diag, [0, 45, 17], [0.0, 0.7], 1, 3),
+                (RANDOM_KINDS, diag[1:2], [45], [0.3], 1, 4)]
+    out = []
+    for kinds, pairs, rots, mds, nusers, bound in plan:
+        for kind, sector in kinds:
             for pos, r in pairs:
                 for rot in rots:
                     for md in mds:
-                        out.append(((kind, sector, pos, r, rot, md), nusers, bound))
+                        out.append(((kind, sector, pos, r, rot, md), nusers, bound, 2 if bound >= 4 else 0))
     return out
 
 
@@ -516,8 +519,37 @@ def default_cycle(region, md):
     return good + bad, len(good)
 
 
-def make_random_run(chk, cfg, nusers, region, record=None):
+class MinimalFails:
+    """buffers the violations of one E2 exploration and hands the one with the fewest deviations (then the
+    shortest / smallest choice vector) to the Check first, so the stored replay is the minimal witness"""
+
+    def __init__(self):
+        self.best = {}
+
+    def fail(self, sig, case, observed=None, expected=None, msg=""):
+        ch = case.get("choices", [])
+        key = (sum(1 for c in ch if c), len(ch), list(ch))
+        cur = self.best.get(sig)
+        if cur is None:
+            self.best[sig] = [key, 1, (dict(case), observed, expected, msg)]
+        else:
+            cur[1] += 1
+            if key < cur[0]:
+                cur[0], cur[2] = key, (dict(case), observed, expected, msg)
+
+    def flush(self, chk):
+        for sig in sorted(self.best):
+            _, n, (case, observed, expected, msg) = self.best[sig]
+            chk.fail(sig, case, observed=observed, expected=expected, msg=msg)
+            for v in chk.violations.values():
+                if tuple(v["sig"]) == tuple(str(x) for x in sig):
+                    v["count"] += n - 1
+        self.best = {}
+
+
+def make_random_run(chk, cfg, nusers, region, record=None, fails=None):
     kind, sector, pos, r, rot, md = cfg
+    fail = fails.fail if fails is not None else chk.fail
     case0 = {"part": "random", "kind": kind, "sector": sector, "pos": pos, "radius": r, "rotation": rot,
              "min_dist_ratio": md, "num_users": nusers}
     own, extra, centre, rad = region
@@ -556,13 +588,13 @@ def make_random_run(chk, cfg, nusers, region, record=None):
             case["choices"] = list(ctx.choices)
             chk.count("eval_placement_executions")
             if livelock:
-                chk.fail(("random_user", kind, "rejection_loop_never_accepts"), case,
+                fail(("random_user", kind, "rejection_loop_never_accepts"), case,
                          observed="more than %d draws" % HORIZON,
                          expected="an acceptable default draw is offered within %d attempts" % NDIR)
                 return
             users = list(obj.users)
             if len(users) != nusers:
-                chk.fail(("random_user", kind, "number_of_users"), case, observed=len(users), expected=nusers)
+                fail(("random_user", kind, "number_of_users"), case, observed=len(users), expected=nusers)
                 return
             nattempts = len(draws) // 2
             accepted = []
@@ -572,18 +604,18 @@ def make_random_run(chk, cfg, nusers, region, record=None):
                 if bd <= TOL * rad:
                     chk.count("excluded_tie_on_edge")
                 elif not inside1(own, p):
-                    chk.fail(("random_user", "outside_own_polygon", kind, rc), case, observed=p,
+                    fail(("random_user", "outside_own_polygon", kind, rc), case, observed=p,
                              expected="inside the polygon of the cell's own vertices",
                              msg="distance to the cell boundary %.3g r" % (bd / rad))
                 if extra is not None and bdist1(extra, p) > TOL * rad and not inside1(extra, p):
-                    chk.fail(("random_user", "outside_requested_sector", kind), case, observed=p,
+                    fail(("random_user", "outside_requested_sector", kind), case, observed=p,
                              expected="inside sector %d" % sector)
                 if abs(p - centre) < md * rad * (1 - 1e-12):
-                    chk.fail(("random_user", "closer_than_min_dist", kind), case, observed=abs(p - centre) / rad,
+                    fail(("random_user", "closer_than_min_dist", kind), case, observed=abs(p - centre) / rad,
                              expected=">= %r" % md)
                 rp = usr.relative_pos
                 if not sector and (rp is None or abs(complex(rp) - (p - centre)) > TOL * rad):
-                    chk.fail(("random_user", "relative_pos", kind), case, observed=rp, expected=p - centre)
+                    fail(("random_user", "relative_pos", kind), case, observed=rp, expected=p - centre)
                 # which pair of consecutive draws produced it
                 for j in range(nattempts):
                     q = centre + complex(2 * (draws[2 * j] - 0.5) * rad, 2 * (draws[2 * j + 1] - 0.5) * rad)
@@ -591,23 +623,60 @@ def make_random_run(chk, cfg, nusers, region, record=None):
                         accepted.append(j)
                         break
                 else:
-                    chk.fail(("random_user", "position_not_from_draws", kind), case, observed=p,
+                    fail(("random_user", "position_not_from_draws", kind), case, observed=p,
                              expected="pos + 2(u-0.5) r for a pair of consecutive draws")
-            chk.count("eval_placed_users", len(users))
+            chk.count("placed_users", len(users))
             if nattempts > nusers or ctx.deviations:
-                chk.count("eval_nontrivial_placements")
-                chk.nontriv(("random", kind, sector, rc, md, nusers, nattempts, tuple(accepted),
-                             tuple(sorted(c for c in ctx.choices if c))))
+                chk.count("nontrivial_placements")
+                chk.nontriv(("random", kind, sector, pos, r, rot, md, nusers, nattempts, tuple(accepted),
+                             ctx.deviations))
             chk.outcome("placement_attempts", nattempts)
             if record is not None:
                 record.append((nattempts, tuple(complex(u.pos) for u in users)))
     return run
 
 
-def run_random(chk, cfg, bound, nusers):
+def explore_sharded(run_mine, run_other, bound, split_depth, shard_i, shard_n):
+    """vmc.choice.Explorer.explore with subtree sharding: the nodes above `split_depth` are executed by every
+    shard (to discover the choice points) but reported only by shard 0 (`run_other` feeds a discarded Check
+    elsewhere); the subtrees rooted at depth `split_depth` are dealt round-robin.  split_depth 0 = plain
+    Explorer.  Returns (executions reported by this shard, max choice points)."""
+    counter = [0]
+    stats = [0, 0]
+
+    def rec(prefix, expect, used, depth, mine):
+        ctx = Ctx(list(prefix), list(expect), HORIZON)
+        (run_mine if mine else run_other)(ctx)
+        if len(ctx.choices) < len(prefix):
+            raise Broken("execution consumed %d of %d replayed choices" % (len(ctx.choices), len(prefix)))
+        if mine:
+            stats[0] += 1
+        stats[1] = max(stats[1], len(ctx.points))
+        pts, ch = ctx.points, ctx.choices
+        for i in range(len(prefix), len(pts)):
+            arity = pts[i][0]
+            for alt in range(1, arity):
+                if used + 1 > bound:
+                    continue
+                if depth + 1 < split_depth:
+                    rec(ch[:i] + [alt], pts[:i + 1], used + 1, depth + 1, shard_i == 0)
+                elif depth + 1 == split_depth:
+                    idx = counter[0]
+                    counter[0] += 1
+                    if idx % shard_n == shard_i:
+                        rec(ch[:i] + [alt], pts[:i + 1], used + 1, depth + 1, True)
+                else:
+                    rec(ch[:i] + [alt], pts[:i + 1], used + 1, depth + 1, True)
+
+    rec([], [], 0, 0, split_depth == 0 or shard_i == 0)
+    return stats
+
+
+def run_random(chk, cfg, bound, nusers, split_depth=0, shard_i=0, shard_n=1):
     kind, sector, pos, r, rot, md = cfg
     case0 = {"part": "random", "kind": kind, "sector": sector, "pos": pos, "radius": r, "rotation": rot,
              "min_dist_ratio": md, "num_users": nusers}
+    owner = split_depth == 0 or shard_i == 0
     # non-vacuity of the default stream, by the oracle: one of the NDIR default points is acceptable
     region = None
     with chk.guard(("random_user", kind), case0):
@@ -615,18 +684,25 @@ def run_random(chk, cfg, bound, nusers):
         _, ok = default_cycle(region, md)
         if not ok:
             raise Broken("no acceptable default draw for %r" % (case0,))
-        chk.outcome("acceptable_default_directions", ok)
+        if owner:
+            chk.outcome("acceptable_default_directions", ok)
     if region is None:
         return
-    rec = []
-    check_determinism(make_random_run(chk, cfg, nusers, region, rec), (), HORIZON)
-    if len(rec) == 2 and rec[0] != rec[1]:
-        raise Broken("two executions of the default answer stream differ for %r" % (case0,))
-    ex = Explorer(make_random_run(chk, cfg, nusers, region), bound, horizon=HORIZON)
-    ex.explore()
-    chk.count("eval_placement_configs")
-    chk.outcome("e2_choice_points_per_execution", ex.max_points)
-    chk.outcome("e2_bounds_completed", (nusers, bound))
+    other = chk.child_check()
+    if owner:
+        rec = []
+        check_determinism(make_random_run(other, cfg, nusers, region, rec), (), HORIZON)
+        if len(rec) == 2 and rec[0] != rec[1]:
+            raise Broken("two executions of the default answer stream differ for %r" % (case0,))
+    fails = MinimalFails()
+    nexec, maxpts = explore_sharded(make_random_run(chk, cfg, nusers, region, fails=fails),
+                                    make_random_run(other, cfg, nusers, region),
+                                    bound, split_depth, shard_i, shard_n)
+    fails.flush(chk)
+    if owner:
+        chk.count("eval_placement_configs")
+        chk.outcome("e2_bounds_completed", (nusers, bound))
+    chk.outcome("e2_choice_points_per_execution", maxpts)
 
 
 # ----------------------------------------------------------------------
@@ -862,11 +938,10 @@ def run_pp(chk, fn, npts, a, b, only=None):
 
 # ----------------------------------------------------------------------
 def jobs(tier):
-    thorough = tier == "thorough"
-    nlat = 41
+    """(light jobs dealt round-robin, split E2 jobs executed by every shard on its share of the subtrees)"""
     out = []
     for cfg in shape_configs():
-        out.append(("contains", cfg + (nlat,)))
+        out.append(("contains", cfg + (41 if tier == "thorough" else 29,)))
         out.append(("border", cfg))
         if cfg[0] in ("Cell", "Cell3Sec", "CellSquare"):
             out.append(("border_user", cfg))
@@ -874,22 +949,24 @@ def jobs(tier):
         out.append(("cluster", cfg))
     for cfg in pp_configs(tier):
         out.append(("pp", cfg))
-    rnd = [("random", cfg) for cfg in random_jobs(tier)]
-    # interleave the heavy E2 jobs with the light ones so that round-robin shards are balanced
+    rj = random_jobs(tier)
+    rnd = [("random", j) for j in rj if j[3] == 0]
+    split = [("random", j) for j in rj if j[3] > 0]
+    # interleave the E2 jobs with the lighter ones so that round-robin shards are balanced
     res = []
-    step = max(1, len(out) // max(1, len(rnd)))
+    per = max(1, len(rnd) // max(1, len(out))) + 1
     it = iter(rnd)
-    for i, j in enumerate(out):
+    for j in out:
         res.append(j)
-        if i % step == 0:
+        for _ in range(per):
             nxt = next(it, None)
             if nxt is not None:
                 res.append(nxt)
     res.extend(it)
-    return res
+    return res, split
 
 
-def run_job(chk, job):
+def run_job(chk, job, shard_i=0, shard_n=1):
     part, cfg = job
     if part == "contains":
         run_contains(chk, *cfg)
@@ -902,12 +979,14 @@ def run_job(chk, job):
     elif part == "pp":
         run_pp(chk, *cfg)
     elif part == "random":
-        run_random(chk, cfg[0], cfg[2], cfg[1])
+        c, nusers, bound, split = cfg
+        run_random(chk, c, bound, nusers, split, shard_i, shard_n)
 
 
 def main(chk: Check):
     tier = chk.tier
-    plan = sorted(set((n, b) for _, n, b in random_jobs(tier)))
+    rj = random_jobs(tier)
+    plan = sorted(set((n, b) for _, n, b, _ in rj))
     chk.assume("points within %g r of a polygon edge are ties (either answer allowed): excluded and counted" % TOL)
     chk.assume("numpy.random.random_sample is the only source of randomness of add_random_user(s) and of "
                "pointprocess; it is replaced by a scripted seam, every draw is an E2 choice point")
@@ -916,14 +995,18 @@ def main(chk: Check):
     chk.assume("Cell3Sec polygons are star-shaped w.r.t. the cell centre, so the border point per angle is unique")
     chk.extra["tolerance_relative_to_radius"] = TOL
     chk.extra["boundary_probe_offset_relative_to_radius"] = PROBE
-    chk.extra["e2_deviation_bounds_completed"] = ["num_users=%d: <=%d non-default draws" % nb for nb in plan]
+    chk.extra["e2_deviation_bounds_completed"] = [
+        "num_users=%d, <=%d non-default draws: %d configurations" % (n, b, sum(1 for j in rj if j[1:3] == (n, b)))
+        for n, b in plan]
     chk.extra["e2_alphabet"] = ALPHA
     chk.extra["e2_default_stream"] = "%d directions at %.4f r, cyclic" % (NDIR, DEFAULT_RATIO)
-    all_jobs = jobs(tier)
+    light, split = jobs(tier)
 
     def worker(i, n, c):
-        for job in shard(iter(all_jobs), i, n):
+        for job in shard(iter(light), i, n):
             run_job(c, job)
+        for job in split:
+            run_job(c, job, i, n)
 
     run_shards(chk, worker)
     chk.sample({"part": "contains", "kind": "Rectangle4x1", "pos": POS[1], "radius": 1.0, "rotation": 30})
@@ -941,7 +1024,8 @@ def main(chk: Check):
 def replay(case, chk: Check):
     part = case.get("part")
     if part == "contains":
-        run_contains(chk, case["kind"], complex(case["pos"]), case["radius"], case["rotation"], 41,
+        run_contains(chk, case["kind"], complex(case["pos"]), case["radius"], case["rotation"],
+                     41 if chk.tier == "thorough" else 29,
                      point=complex(case["point"]) if "point" in case else None)
     elif part == "border":
         if "angle" in case:
